@@ -73,7 +73,7 @@ class StrPatchwork(object):
             item = slice(item, item + len(val_array))
         end = item.stop
         l = len(self.s)
-        if l < end:
+        if end is not None and l < end:
             tmp = array("B")
             array_frombytes(tmp, self.paddingbyte * (end - l))
             self.s.extend(tmp)
